@@ -5,7 +5,8 @@ Models:   lean/DaskModel/Model/Creation.lean      arange (generic arithmetic), l
           lean/DaskModel/Model/CreationFloat.lean da.arange over binary64: guard, num, first/second, block values
           lean/DaskModel/Model/DiagonalNd.lean    n-d diagonal (axes, free blocks, task table, read map), diag(v,k), 2-d->1-d diag
           lean/DaskModel/Model/CreationGrid.lean  meshgrid / indices / fromfunction / constant fills
-Theorems: lean/DaskModel/Props/C34.lean
+          lean/DaskModel/Model/CreationLike.lean  *_like: _get_like_function_shapes_chunks + normalize_chunks of the resolved arguments
+Theorems: lean/DaskModel/Props/C34.lean, lean/DaskModel/Props/C34xLike.lean
 Tie:      function level: task arguments of the real arange / linspace / eye / diagonal graphs vs the model tables; per-block
           outputs of arange (binary64, bit for bit), meshgrid, indices, fromfunction vs the model; the binary64 model itself vs
           CPython floats; API level: every routine vs NumPy (values exact incl. float arange/linspace, dtype, per-block
@@ -18,12 +19,12 @@ from fractions import Fraction
 
 from sexp import Sym
 
-from props._chunks_util import rand_comp, comps, valid_dim, setup_dask, blocks_match_chunks
+from props._chunks_util import rand_comp, rand_comp_zeros, comps, valid_dim, setup_dask, blocks_match_chunks
 
 PROP = "C34"
 READY = True
 DRIVER = "dm_chunks"
-LEAN_MODULES = ["DaskModel.Props.C34"]
+LEAN_MODULES = ["DaskModel.Props.C34", "DaskModel.Props.C34xLike"]
 CASE_TIMEOUT_S = 20
 LEVEL_TEXT = ("Lean 4 theorems, for every chunking (no size bound). arange (after fix b762398: every element from its global "
               "index): arange_den holds for ANY arithmetic of the computation dtype - block lengths are the declared chunks and the "
@@ -44,10 +45,18 @@ LEVEL_TEXT = ("Lean 4 theorems, for every chunking (no size bound). arange (afte
               "(any ndim, normalised axes, any offset: the assembled result reads NumPy's positions; free axes' blocks carried "
               "along), diagonal_nd_tasks, normAxes_spec, grid_den (fromfunction: any function of the global index), indices_den, "
               "indices_axis0, meshgrid_den (xy/ij, sparse/dense), full_den (ones/zeros/full(_like)), tri_den, chunks_sum_shape (via "
-              "C23). Validated only (differentially, vs NumPy, exact comparison): dtypes, integer floor of linspace, binary32 "
+              "C23). *_like variants (Props/C34xLike.lean over Model/CreationLike.lean = _get_like_function_shapes_chunks + "
+              "normalize_chunks of the resolved arguments): like_template_den (defaults: exactly the template's chunks - "
+              "normalize_chunks(a.chunks, a.shape) never raises and never consults auto_chunks or the byte limit -, adding up to "
+              "a.shape, fill value at every position), like_is_wrap (chunks= and/or shape= given: the plain wrapped routine on the "
+              "resolved arguments, the template's chunks not consulted, shape= alone means 'auto'), like_chunks_sum_shape / "
+              "like_full_den (every argument combination: chunks add up to the resolved shape, fill value everywhere). "
+              "Validated only (differentially, vs NumPy, exact comparison): dtypes, integer floor of linspace, binary32 "
               "arange/linspace, that the model's division equals rounding the exact quotient (proved for exact quotients only), "
               "the pad/stack/broadcast/blockwise layers underneath diag(v,k)/indices/meshgrid/fromfunction (their block plans are "
-              "diffed per block), auto/byte-string chunk specs, *_like argument handling, empty(_like) (shape/dtype only).")
+              "diffed per block), auto/byte-string chunk specs (auto_chunks' result is a parameter of the *_like model, observed from "
+              "the real call), the dtype rule of *_like (dtype or a.dtype), non-dask templates (asarray first), empty(_like) "
+              "(shape/dtype only).")
 LEVEL_NOTE = ("Trusted: Lean kernel + standard axioms; the harness; NumPy kernels on ONE block (np.eye, np.diag, np.diagonal, "
               "np.arange(offset, offset+size), elementwise + - * on an array, broadcast_to, astype) as listed in ASSUMPTIONS. "
               "The binary64 model does not cover overflow to inf, NaN and the sign of zero (the harness diffs only finite "
@@ -70,15 +79,18 @@ ASSUMPTIONS = [
 TRUSTED = ["CPython float arithmetic (IEEE-754 binary64, round-to-nearest-even) as the reference for Model/SoftFloat.lean"]
 
 
-def _chunks_ok(ctx, r, what):
+def _chunks_ok(ctx, r, what, zeros_ok=False):
     shape = r.shape
-    if len(r.chunks) != len(shape) or not all(valid_dim(c, s) for c, s in zip(r.chunks, shape)):
+    # zeros_ok: zero-length chunks inside a tuple are legal where the caller put them there (a template's own chunks,
+    # explicit chunks=): the statement asks that the lazy chunks add up to the shape
+    ok1 = (lambda c, s: len(c) > 0 and all(int(v) >= 0 for v in c) and sum(c) == s) if zeros_ok else valid_dim
+    if len(r.chunks) != len(shape) or not all(ok1(c, s) for c, s in zip(r.chunks, shape)):
         ctx.fail(f"{what}: lazy chunks do not add up to the shape / are not positive", observed=[r.chunks, shape])
         return False
     return True
 
 
-def _same(ctx, what, r, e, exact=True, check_blocks=True, tol_steps=64, value_sig=None):
+def _same(ctx, what, r, e, exact=True, check_blocks=True, tol_steps=64, value_sig=None, zeros_ok=False):
     """computed dask array == NumPy (shape, dtype, values) and each block has its declared shape."""
     import numpy as np
     e = np.asarray(e)
@@ -88,7 +100,7 @@ def _same(ctx, what, r, e, exact=True, check_blocks=True, tol_steps=64, value_si
     if r.dtype != e.dtype:
         ctx.fail(f"{what}: dtype differs from NumPy", observed=str(r.dtype), expected=str(e.dtype))
         return False
-    if not _chunks_ok(ctx, r, what):
+    if not _chunks_ok(ctx, r, what, zeros_ok):
         return False
     try:
         g = r.compute(scheduler="sync")
@@ -698,8 +710,164 @@ def case_misc(ctx, inp):
     ctx.branch("misc:" + op)
 
 
+# ---------------------------------------------------------------------------
+# extension round: *_like argument resolution (Model/CreationLike.lean, Props/C34xLike.lean)
+# ---------------------------------------------------------------------------
+
+def _like_spec_sx(c):
+    """one entry of a chunks= argument -> spec s-expression of Drivers/chunks.lean; None = outside the model"""
+    import numpy as np
+    from dask.utils import parse_bytes
+    if c is None:
+        return Sym("none")
+    if isinstance(c, (bool, np.bool_)):
+        return None
+    if isinstance(c, (int, np.integer)):
+        return int(c)
+    if isinstance(c, str):
+        return Sym("auto") if c == "auto" else [Sym("bytes"), int(parse_bytes(c))]
+    if isinstance(c, (tuple, list)) and all(isinstance(x, (int, np.integer)) and not isinstance(x, (bool, np.bool_)) for x in c):
+        return [Sym("t")] + [int(x) for x in c]
+    return None
+
+
+def _like_top_sx(c):
+    """a chunks= argument (as `_get_like_function_shapes_chunks` returns it) -> top s-expression; None = outside the model"""
+    if isinstance(c, dict):
+        items = [[int(k), _like_spec_sx(v)] for k, v in c.items()]
+        return None if any(v is None for _k, v in items) else [Sym("dict")] + items
+    if isinstance(c, (tuple, list)):
+        items = [_like_spec_sx(v) for v in c]
+        return None if any(v is None for v in items) else [Sym("seq")] + items
+    v = _like_spec_sx(c)
+    return None if v is None or c is None else [Sym("scalar"), v]
+
+
+def _like_chunks_py(c):
+    if isinstance(c, dict):
+        return {int(k): _spec_py(v) for k, v in c["d"]}
+    return _spec_py(c)
+
+
+def case_like(ctx, inp):
+    """ones_like / zeros_like / full_like / empty_like: `_get_like_function_shapes_chunks` + `normalize_chunks` of the resolved
+    arguments against `likeArgs` / `likeChunks` (the result of the real `auto_chunks` call, if one happens, is a parameter of the
+    model); the clauses of like_template_den / like_chunks_sum_shape / like_full_den evaluated on the real result; NumPy."""
+    import numpy as np
+    import dask.array as da
+    import dask.array.core as dac
+    import dask.array.creation as dcr
+    from sexp import enc
+    setup_dask()
+    op = inp["op"]
+    achunks = tuple(tuple(c) for c in inp["achunks"])
+    ashape = tuple(sum(c) for c in achunks)
+    adt = inp.get("adtype", "i8")
+    x = np.arange(int(np.prod(ashape, dtype="i8")), dtype=adt).reshape(ashape)
+    a = da.from_array(x, chunks=achunks) if inp.get("from_array", True) and all(all(v > 0 for v in c) for c in achunks) \
+        else da.zeros(ashape, chunks=achunks, dtype=adt)
+    if a.chunks != achunks:
+        raise RuntimeError(f"template chunks {a.chunks} != requested {achunks}")
+    chunks = _like_chunks_py(inp["chunks"]) if inp.get("chunks") is not None else None
+    shape = inp.get("shape")
+    shape = None if shape is None else (shape if isinstance(shape, int) else tuple(shape))
+    kw = {}
+    if inp.get("dtype"):
+        kw["dtype"] = inp["dtype"]
+    if shape is not None:
+        kw["shape"] = shape
+    ckw = dict(kw)
+    if chunks is not None:
+        ckw["chunks"] = chunks
+    # --- the real helper ------------------------------------------------------------------------------------
+    rshape, rchunks = dcr._get_like_function_shapes_chunks(a, chunks, shape)
+    rshape_l = [int(rshape)] if isinstance(rshape, int) else [int(v) for v in rshape]   # `_parse_wrap_args`: shape = (shape,)
+    shape_l = None if shape is None else ([shape] if isinstance(shape, int) else list(shape))
+    want_shape = list(ashape) if shape is None else shape_l
+    # --- the real call, observing auto_chunks ---------------------------------------------------------------
+    rec = {"depth": 0, "res": None, "called": False}
+    orig = dac.auto_chunks
+
+    def wrapper(*args, **kwargs):
+        rec["depth"] += 1
+        rec["called"] = True
+        try:
+            out = orig(*args, **kwargs)
+        finally:
+            rec["depth"] -= 1
+        if rec["depth"] == 0:
+            rec["res"] = out
+        return out
+
+    dac.auto_chunks = wrapper
+    try:
+        try:
+            r = da.full_like(a, inp["fill"], **ckw) if op == "full_like" else getattr(da, op)(a, **ckw)
+            impl = [Sym("ok"), [[int(v) for v in c] for c in r.chunks]]
+        except ValueError:
+            r, impl = None, [Sym("raised"), Sym("ValueError")]
+    finally:
+        dac.auto_chunks = orig
+    # --- function level -------------------------------------------------------------------------------------
+    top = None if chunks is None else _like_top_sx(chunks)
+    ar = Sym("none")
+    if rec["called"] and rec["res"] is not None:
+        from props.c23 import autores_sx
+        ar = autores_sx(rec["res"]) or Sym("none")
+    modelled = chunks is None or top is not None
+    if modelled:
+        mshape, mtop, mres = ctx.lean(Sym("like_args"), list(ashape), [list(c) for c in achunks],
+                                      Sym("none") if chunks is None else top,
+                                      Sym("none") if shape is None else shape_l, Sym("none"), ar)
+        ctx.eq("_get_like_function_shapes_chunks: shape", mshape, rshape_l)
+        rtop = _like_top_sx(rchunks)
+        ctx.eq("_get_like_function_shapes_chunks: chunks", enc(mtop), enc(rtop) if rtop is not None else repr(rchunks))
+        if mres == [Sym("unsupported")]:
+            ctx.note("like:outside-the-modelled-chunk-specs")
+        elif mres == [Sym("raised"), Sym("auto")]:
+            ctx.disagree("like: the model wants auto_chunks, the real call never reached it", mres, impl)
+        else:
+            ctx.eq(f"{op}: lazy chunks vs likeChunks", mres, impl)
+    kind = ("template" if chunks is None else "chunks-given") if shape is None else ("shape-given:auto" if chunks is None else "both-given")
+    ctx.branch("like:" + kind + (":auto_chunks-consulted" if rec["called"] else ""))
+    if r is None:
+        ctx.branch("like:raised-ValueError")
+        if chunks is None:
+            ctx.fail(f"{op}: raised although no chunks= was given", observed="ValueError")
+        return
+    # --- the theorems' clauses on the real result -------------------------------------------------------------
+    if shape is None and chunks is None:
+        if r.chunks != a.chunks:
+            ctx.fail(f"{op}: chunks differ from the template's (like_template_den)", observed=r.chunks, expected=a.chunks)
+        if rec["called"]:
+            ctx.fail(f"{op}: auto_chunks consulted for the template's own chunks", observed=str(rec["res"]))
+        if any(0 in c for c in achunks):
+            ctx.branch("like:template:zero-length-chunk")
+        if not achunks:
+            ctx.branch("like:template:0-d")
+    if [int(v) for v in r.shape] != want_shape:
+        ctx.fail(f"{op}: lazy shape is not shape= / the template's", observed=list(r.shape), expected=want_shape)
+    if isinstance(chunks, tuple) and chunks and all(isinstance(c, tuple) for c in chunks) and r.chunks != chunks:
+        ctx.fail(f"{op}: explicit chunks not honoured", observed=r.chunks, expected=chunks)
+    if op == "full_like":
+        e = np.full_like(x, inp["fill"], **kw)
+    else:
+        e = getattr(np, op)(x, **kw)
+    # zero-length chunks are legal exactly where the caller supplied them: the template's own chunks, explicit tuples
+    zeros_ok = (chunks is None and shape is None) or (chunks is not None and "(t " in enc(top or []))
+    if not zeros_ok and any(0 in c and len(c) > 1 for c in r.chunks):
+        ctx.fail(f"{op}: zero-length chunk although none was asked for", observed=r.chunks)
+    if op == "empty_like":
+        if tuple(r.shape) != e.shape or r.dtype != e.dtype or not _chunks_ok(ctx, r, op, zeros_ok):
+            ctx.fail("empty_like: shape/dtype/chunks", observed=[r.shape, str(r.dtype), r.chunks])
+        elif r.compute(scheduler="sync").shape != e.shape:
+            ctx.fail("empty_like: computed shape", observed=list(r.compute(scheduler="sync").shape))
+    else:
+        _same(ctx, op, r, e, zeros_ok=zeros_ok)
+
+
 CASES = {"arange": case_arange, "linspace": case_linspace, "eye": case_eye, "diag": case_diag, "misc": case_misc,
-         "softfloat": case_softfloat}
+         "softfloat": case_softfloat, "like": case_like}
 
 
 def _chunk_spec(rng, n, allow_tuple=True):
@@ -1146,7 +1314,7 @@ def _gen_grid(ctx):
 def _gen_misc(ctx):
     rng = ctx.rng
     # --- the rest: API level --------------------------------------------------------------------------------
-    for _ in range(ctx.n(250, 3000)):
+    for _ in range(ctx.n(220, 3000)):
         op = rng.choice(["tri", "indices", "meshgrid", "fromfunction", "ones", "zeros", "full", "empty",
                          "ones_like", "zeros_like", "full_like", "empty_like"])
         if op == "tri":
@@ -1188,8 +1356,58 @@ def _gen_misc(ctx):
             yield "misc", inp
 
 
+def _like_chunk_arg(rng, shape):
+    """a chunks= argument for a *_like call on `shape` (JSON form)"""
+    r = rng.random()
+    if r < 0.3:
+        return [rand_comp_zeros(rng, s) if rng.random() < 0.3 else rand_comp(rng, s) for s in shape]
+    if r < 0.45:
+        return [rng.choice([rng.randint(1, s + 1), -1, None, "auto", rand_comp(rng, s)]) for s in shape]
+    if r < 0.6:
+        return rng.randint(1, 4)
+    if r < 0.7:
+        return {"d": [[i, rng.choice([rng.randint(1, s + 1), -1, "auto", rand_comp(rng, s)])]
+                      for i, s in enumerate(shape) if rng.random() < 0.6]}
+    if r < 0.8:
+        return "auto"
+    if r < 0.9:
+        return rng.choice(["32B", "128B"])
+    # malformed: wrong number of axes / tuples that do not add up / a negative size
+    return rng.choice([[rand_comp(rng, s + 1) for s in shape], [1] * (len(shape) + 1) if len(shape) != 0 else [1],
+                       [rng.randint(1, 3)] * max(0, len(shape) - 1) or -2, -3])
+
+
+def _gen_like(ctx):
+    rng = ctx.rng
+    ops = ["ones_like", "zeros_like", "full_like", "empty_like"]
+    yield "like", {"op": "ones_like", "achunks": []}
+    yield "like", {"op": "full_like", "achunks": [[2, 0, 3], [0]], "fill": 3}
+    yield "like", {"op": "zeros_like", "achunks": [[2, 3], [4]], "shape": [7, 2]}
+    yield "like", {"op": "full_like", "achunks": [[2, 3], [4]], "shape": 7, "fill": 1.5, "chunks": 3}
+    for _ in range(ctx.n(110, 1500)):
+        op = rng.choice(ops)
+        nd = rng.choice([0, 1, 1, 2, 2, 3])
+        shape = [rng.randint(0 if rng.random() < 0.15 else 1, 6) for _ in range(nd)]
+        inp = {"op": op, "achunks": [rand_comp_zeros(rng, s) if rng.random() < 0.25 else rand_comp(rng, s) for s in shape],
+               "adtype": rng.choice(["i8", "f8", "i2"]), "dtype": rng.choice([None, None, "f4", "i2"]),
+               "from_array": rng.random() < 0.5}
+        r = rng.random()
+        if r < 0.4:
+            pass                                                       # the defaults: the template's chunks
+        elif r < 0.6:
+            inp["chunks"] = _like_chunk_arg(rng, shape)
+        else:
+            ns = [rng.randint(0 if rng.random() < 0.1 else 1, 6) for _ in range(rng.choice([nd, rng.randint(0, 3)]))]
+            inp["shape"] = ns[0] if len(ns) == 1 and rng.random() < 0.3 else ns
+            if r < 0.8:
+                inp["chunks"] = _like_chunk_arg(rng, ns)
+        if op == "full_like":
+            inp["fill"] = rng.choice([3, 1.5, -2])
+        yield "like", inp
+
+
 def generate(ctx):
-    gens = [_gen_eye, _gen_arange_int, _gen_arange_frac, _gen_softfloat, _gen_linspace, _gen_diag, _gen_grid, _gen_misc]
+    gens = [_gen_eye, _gen_arange_int, _gen_arange_frac, _gen_softfloat, _gen_linspace, _gen_diag, _gen_grid, _gen_misc, _gen_like]
     if not ctx.thorough():
         for g in gens:
             yield from g(ctx)
